@@ -80,6 +80,8 @@ pub struct FaultPlan {
     /// make the n-th io_uring_enter of this file fail with errno (4 = EINTR is retried by the store,
     /// anything else is an indeterminate outcome)
     pub enter: Vec<(u32, i32)>,
+    /// every io_uring_enter of this file from the n-th on fails with errno (a condition that does not go away)
+    pub enter_from: Option<(u32, i32)>,
 }
 
 #[derive(Default)]
@@ -225,9 +227,11 @@ impl FileMon {
         let mut s = self.state.lock();
         let n = s.enter_calls;
         s.enter_calls += 1;
-        let errno = s.plan.enter.iter().find(|(i, _)| *i == n).map(|(_, e)| *e);
+        let errno = s.plan.enter.iter().find(|(i, _)| *i == n).map(|(_, e)| *e).or_else(|| s.plan.enter_from.filter(|(from, _)| n >= *from).map(|(_, e)| e));
         if let Some(e) = errno {
-            s.enter_faults.push((n, e));
+            if s.enter_faults.len() < 4096 {
+                s.enter_faults.push((n, e));
+            }
         }
         errno
     }
